@@ -35,7 +35,8 @@ for u, lim in (('H', 582), ('M', 34952), ('S', 2097152)):
 DTYPS = ('DT_YMD', 'DT_YD', 'DT_DAISY', 'DT_LDN', 'DT_MDN')
 for t in DTYPS:
     G('dtc.dt_dtdiff.S.' + t[3:], 'dt-core', 'dt_dtdiff', P11 + ['C05'], ins=DT_IN + DT2_IN, fix={'in_typ': t, 'in_typ2': t}, setup=DT_SET + DT2_SET,
-      call='dt_dtdiff(DT_DURS, d, d2)', ret='struct dt_dtdur_s', replace=['dt_tdiff_s', 'dt_ddiff'], solvers=['cadical'], timeout=1800, tier='thorough', optional=True, sweep=SW,
+      call='dt_dtdiff(DT_DURS, d, d2)', ret='struct dt_dtdur_s', replace=['dt_tdiff_s', 'dt_ddiff'], solvers=['cadical'],
+      timeout=800 if t in ('DT_DAISY', 'DT_YMD') else 1800, tier='quick' if t in ('DT_DAISY', 'DT_YMD') else 'thorough', optional=t not in ('DT_DAISY', 'DT_YMD'), sweep=SW,
       needs={'dt_ddiff': r'da\.dt_ddiff\.D\.%s\.%s$' % (t[3:], t[3:])})
     pass
 # C14: real-seconds differences: index lookups in the generated leap table, then the correction slot
